@@ -179,6 +179,7 @@ func checkC06(r *core.Run) {
 	c06UndoApply(r, p)
 	c06Order(r, p)
 	c06WalkGuard(r, p, "R-C06-order")
+	c06MaskCovers(r, p, "R-C06-undo-apply")
 	c06FlagsAfterHeight(r, p, "R-C06-order")
 }
 
@@ -629,4 +630,72 @@ func c06WalkGuard(r *core.Run, p *core.Program, rule string) {
 	}
 	sort.Strings(bad)
 	r.Check(len(bad) == 0 && n >= 2, rule, "walk-guard", p.Pos(fn.Pos()), fmt.Sprintf("%d parent steps on the destination's branch, each taken only when the parent's data is present", n), strings.Join(bad, "; "))
+}
+
+// c06MaskCovers: disconnecting a block removes every output the block created.  On the path that goes
+// through db.del the outputs to remove are named by a mask; where that mask is a prefix outs[:n] of a
+// reusable all-true buffer, the buffer must have been grown to at least n entries first - a prefix taken
+// beyond len (legal within the capacity) exposes zero entries, i.e. outputs that are silently kept - and
+// everything appended to the buffer is the constant true.
+func c06MaskCovers(r *core.Run, p *core.Program, rule string) {
+	n := 0
+	var bad []string
+	for _, fn := range p.ModuleFuncs() {
+		if !strings.Contains(core.FuncName(fn), "lib/utxo.") {
+			continue
+		}
+		for _, c := range an.CallsTo(fn, false, "(*lib/utxo.UnspentDB).del") {
+			a := c.Common().Args
+			sl, ok := a[len(a)-1].(*ssa.Slice)
+			if !ok {
+				continue
+			}
+			n++
+			pos := p.Pos(an.InstrPos(c.(ssa.Instruction)))
+			if sl.High == nil {
+				continue
+			}
+			x, h := an.Expr(sl.X), an.Expr(sl.High)
+			cs := an.DomConds(c.(ssa.Instruction).Block())
+			if !(an.HasCond(cs, "(builtin.len("+x+") < "+h+")", false) || an.HasCond(cs, "(builtin.len("+x+") >= "+h+")", true) || an.HasCond(cs, "("+h+" <= builtin.len("+x+"))", true) || an.HasCond(cs, "("+h+" > builtin.len("+x+"))", false)) {
+				bad = append(bad, "the removal mask at "+pos+" is the prefix [:"+clip(h, 60)+"] of a buffer that is not known to hold that many entries (no dominating test of its length)")
+			}
+			// contents: only true is ever appended
+			seen := map[ssa.Value]bool{}
+			var walk func(v ssa.Value)
+			walk = func(v ssa.Value) {
+				if seen[v] {
+					return
+				}
+				seen[v] = true
+				switch y := v.(type) {
+				case *ssa.Phi:
+					for _, e := range y.Edges {
+						walk(e)
+					}
+				case *ssa.Call:
+					if an.CallName(y) == "builtin.append" {
+						walk(y.Call.Args[0])
+						// the appended element: stored into the varargs array
+						if s2, ok := y.Call.Args[1].(*ssa.Slice); ok {
+							if al, ok := s2.X.(*ssa.Alloc); ok {
+								for _, ref := range *al.Referrers() {
+									if ia, ok := ref.(*ssa.IndexAddr); ok {
+										for _, r2 := range *ia.Referrers() {
+											if st, ok := r2.(*ssa.Store); ok && an.Expr(st.Val) != "true" {
+												bad = append(bad, "the mask buffer receives "+clip(an.Expr(st.Val), 40)+" at "+p.Pos(an.InstrPos(st))+" (only true may be appended)")
+											}
+										}
+									}
+								}
+							}
+						}
+					}
+				}
+			}
+			walk(sl.X)
+		}
+	}
+	sort.Strings(bad)
+	r.Check(len(bad) == 0 && n >= 1, rule, "undo/removal-mask-covers-all-outputs", "-", fmt.Sprintf("%d removal(s) through a prefix of the all-true buffer; the buffer is grown to the prefix length first", n), strings.Join(bad, "; "))
 }
